@@ -34,8 +34,8 @@ PROPS = {
     },
     'C03': {
         'streams': [S('C03', 1500, 30000)],
-        'explanation': 'Correspondence on hostile strings: redactable %v/%+v, safe details, wire message, Sentry report of model vs implementation, local / knowing hops / unknowing hop; Go relation: no unsafe token in any PII-free output',
-        'not_yet_proved': ['C03_*_ni non-interference through the formatting engine'],
+        'explanation': 'theorems (whole engine, Proofs/EngineNI.v): for any two errors that differ only in the CONTENT of unsafe strings (every unsafe position of the model, hidden errors included; same line shape), Redact() of the %v/%s and of the %+v rendering is the same; the needed refinement of "shape" (lines of 0/1/2+ bytes for strings the engine writes itself) is witnessed: a one-bit-per-line length side channel, not content. Correspondence on hostile strings: redactable %v/%+v, safe details, wire message, Sentry report of model vs implementation, local / knowing hops / unknowing hop; Go relation: no unsafe token in any PII-free output',
+        'not_yet_proved': ['non-interference of the safe details / wire payload / report assembled from the renderings (they are Redact() of renderings covered by the theorem, plus per-kind detail strings: decided by the correspondence); a syntactic input condition implying the sh_ok / glue hypotheses'],
         'assumptions': [ASSUME_UNIVERSE],
     },
     'C04': {
@@ -63,8 +63,8 @@ PROPS = {
     },
     'C09': {
         'streams': [S('C09', 900, 25000)],
-        'explanation': 'theorems: %v = Error() for every tree of every kind with plain strings (no newline; ASCII where escaped), *net.OpError included when it has at most one of source / address; C09_v_s_operror_refuted: with both, %v prints "src -> addr" and Error() "src->addr" (recorded finding operror-arrow-spacing, shown on the code by the Go relation); exactly one entry per visible layer for every tree / flags / state; types line. Correspondence: %v and %+v byte-equal model vs implementation (local and decoded); Go relation: %v = %s = Error(), %q/%x/%X/width/precision/flags = fmt on the Error() string, entry count, Error types line, bad verbs',
-        'not_yet_proved': ['the layout of each entry of %+v; %v = Error() for strings with interior newlines (false for arbitrary newlines)'],
+        'explanation': 'theorems (Proofs/VerboseLayout.v): the exact layout of %+v for every error (first line, numbered entries with multi-cause indentation, Error types line in entry order); each entry carries its layer type, stack and -- for library wrappers -- exactly the detail its kind prints; entries follow the engine order, a permutation of the traversal order, equal on chain-like trees; theorems: %v = Error() for every tree of every kind with plain strings (no newline; ASCII where escaped), *net.OpError included when it has at most one of source / address; C09_v_s_operror_refuted: with both, %v prints "src -> addr" and Error() "src->addr" (recorded finding operror-arrow-spacing, shown on the code by the Go relation); exactly one entry per visible layer for every tree / flags / state; types line. Correspondence: %v and %+v byte-equal model vs implementation (local and decoded); Go relation: %v = %s = Error(), %q/%x/%X/width/precision/flags = fmt on the Error() string, entry count, Error types line, bad verbs',
+        'not_yet_proved': ['%+v starts with Error() is proved under plain_tree and the decidable settled condition; fmt own verbs (%q %x width precision flags) are decided by the Go relation only, by design'],
         'assumptions': [ASSUME_UNIVERSE, "Go's fmt for %q/%x/%X/width/precision is not modelled (oracle only)"],
     },
     'C10': {
@@ -81,8 +81,8 @@ PROPS = {
     },
     'C12': {
         'streams': [S('C12', 1500, 30000)],
-        'explanation': 'Correspondence: Sentry report and safe details model vs implementation; Go relation: every safe-channel token is in the report or in GetAllSafeDetails, locally and after knowing hops',
-        'not_yet_proved': ['C12_retained'],
+        'explanation': 'theorems (Proofs/SafeRetained.v): an ASCII literal or Safe() argument is a substring of the safe detail of its message layer whatever the other arguments; EVERY safe detail declared by ANY layer (chain, behind barriers, in secondary errors, any depth) is in GetAllSafeDetails (indented per hiding level), with channel instances (telemetry keys, domains, issue links, tag keys) and after k hops for exact trees; the report message contains the redacted verbose rendering and every layer type line; what is not retained is stated by witnesses. Correspondence: Sentry report and safe details model vs implementation; Go relation: every safe-channel token is in the report or in GetAllSafeDetails, locally and after knowing hops',
+        'not_yet_proved': ['retention after hops for trees outside exact_tree / through processes that do not know the secondary-error type (false in general: witness secondary_details_need_the_decoder)'],
         'assumptions': [ASSUME_UNIVERSE, 'channels as listed by the property statement'],
     },
     'C13': {
